@@ -360,6 +360,7 @@ package statedb
 //@   pure
 //@   ensures ok <==> GH_dom[recv][kid(key)]
 //@   ensures ok ==> obj == GH_map[recv][kid(key)]
+//@   ensures watch == qWatch(recv, 0, kid(key))
 
 //@ func (*writeTxnState).indexWriteTxn
 //@   inline
@@ -871,3 +872,303 @@ package statedb
 //@   flag nosafety
 //@   aftercall (*Tree).LowerBound@1 assume lbKeyId(1) == keyId($1)
 //@   atcall newNonUniqueLowerBoundPartIterator@1 requires @filter-uses-the-key-the-tree-was-positioned-with keyId($1) == lbKeyId(1)
+
+// ---------------------------------------------------------------------------
+// Round-7 sweep: read-transaction accessors. A ReadTxn IS its frozen root: every accessor
+// answers from that slice and nothing else (C01, C02, C09).
+//@ func (*readTxn).getTableEntry
+//@   property C01 C02 C09 C11 C19
+//@   pure
+//@   flag nosafety
+//@   requires r != nil
+//@   ensures @entry-of-the-frozen-root result == (*r)[tposOf(meta)]
+//@ func (*readTxn).root
+//@   property C01 C02 C09 C07
+//@   pure
+//@   requires r != nil
+//@   ensures @the-frozen-root result == *r
+//@ func (*readTxn).committedRoot
+//@   property C01 C02 C09 C07
+//@   pure
+//@   requires r != nil
+//@   ensures @the-frozen-root result == *r
+//@ func (*readTxn).indexReadTxn returns (ix, err)
+//@   property C01 C02 C09 C04
+//@   flag nosafety
+//@   maypanic
+//@   requires r != nil
+//@   ensures @index-of-the-frozen-root tposOf(meta) >= 0 ==> err == nil && ix == (*r)[tposOf(meta)].indexes[indexPos]
+//@   ensures @unregistered-table-is-an-error tposOf(meta) < 0 ==> err != nil
+
+// indexPos: the empty name is the primary index; otherwise the position returned holds exactly
+// that name, and internal positions (below the primary) are only reachable with a '_' name.
+//@ func (*genTable).indexPos
+//@   property C04 C11 C18
+//@   flag nosafety
+//@   maypanic
+//@   requires t != nil
+//@   loop 1 invariant start == 0 || start == 3
+//@   ensures @empty-name-is-primary len(name) == 0 ==> result == 3
+//@   ensures @position-holds-the-name len(name) > 0 ==> 0 <= result && result < len(t.indexPositions) && t.indexPositions[result] == name
+//@   ensures @internal-only-by-underscore len(name) > 0 && name[0] != 95 ==> result >= 3
+
+// ---------------------------------------------------------------------------
+// Table queries (C04, C11, C18, C01): every query goes to the index that carries the query's
+// index name, in the snapshot of the transaction it was given, with the query's key; the watch
+// channel handed back is the one that index returned for exactly that query; the typed
+// sequence yields each object with its own revision.
+//@ spec ixOf(txn ReadTxn, t ptr, pos int) tableIndexReader
+//@ spec qIter(ix tableIndexReader, kind int, k int) tableIndexIterator
+//@ spec qWatch(ix tableIndexReader, kind int, k int) ptr
+//@ spec ixLen(ix tableIndex) int
+//@ func ReadTxn.mustIndexReadTxn
+//@   trusted
+//@   pure
+//@   maypanic
+//@   ensures result == ixOf(recv, unboxptr(meta), indexPos)
+//@ func tableIndexReader.lowerBound returns (it, watch)
+//@   trusted
+//@   pure
+//@   ensures it == qIter(recv, 1, kid(key)) && watch == qWatch(recv, 1, kid(key))
+//@ func tableIndexReader.prefix returns (it, watch)
+//@   trusted
+//@   pure
+//@   ensures it == qIter(recv, 2, kid(key)) && watch == qWatch(recv, 2, kid(key))
+//@ func tableIndexReader.list returns (it, watch)
+//@   trusted
+//@   pure
+//@   ensures it == qIter(recv, 3, kid(key)) && watch == qWatch(recv, 3, kid(key))
+//@ func tableIndexReader.all returns (it, watch)
+//@   trusted
+//@   pure
+//@   ensures it == qIter(recv, 4, 0) && watch == qWatch(recv, 4, 0)
+
+//@ func tableIndex.get returns (obj, watch, ok)
+//@   trusted
+//@   pure
+//@   ensures ok <==> GH_dom[recv][kid(key)]
+//@   ensures ok ==> obj == GH_map[recv][kid(key)]
+//@   ensures watch == qWatch(recv, 0, kid(key))
+
+//@ func (*genTable).Revision
+//@   property C09 C01 C02
+//@   flag nosafety
+//@   maypanic
+//@   requires t != nil
+//@   ensures @revision-of-the-snapshot-entry result == entryOf(txn, t).revision
+//@ func (*genTable).LowerBoundWatch returns (seq, watch)
+//@   property C04 C11 C18 C01
+//@   flag nosafety
+//@   maypanic
+//@   requires t != nil
+//@   atcall mustIndexReadTxn@1 requires @index-named-by-the-query $0 == txn && unboxptr($1) == t && (len(q.index) == 0 ? $2 == 3 : (0 <= $2 && $2 < len(t.indexPositions) && t.indexPositions[$2] == q.index))
+//@   atcall lowerBound@1 requires @searches-for-the-query-key $0 == indexTxn && $1 == q.key
+//@   mustcall lowerBound@1 when @always true
+//@   ensureslocal @hands-on-the-watch-of-that-query watch == qWatch(indexTxn, 1, kid(q.key))
+//@ func (*genTable).PrefixWatch returns (seq, watch)
+//@   property C04 C11 C18 C01
+//@   flag nosafety
+//@   maypanic
+//@   requires t != nil
+//@   atcall mustIndexReadTxn@1 requires @index-named-by-the-query $0 == txn && unboxptr($1) == t && (len(q.index) == 0 ? $2 == 3 : (0 <= $2 && $2 < len(t.indexPositions) && t.indexPositions[$2] == q.index))
+//@   atcall prefix@1 requires @searches-for-the-query-key $0 == indexTxn && $1 == q.key
+//@   mustcall prefix@1 when @always true
+//@   ensureslocal @hands-on-the-watch-of-that-query watch == qWatch(indexTxn, 2, kid(q.key))
+//@ func (*genTable).ListWatch returns (seq, watch)
+//@   property C04 C11 C18 C01
+//@   flag nosafety
+//@   maypanic
+//@   requires t != nil
+//@   atcall mustIndexReadTxn@1 requires @index-named-by-the-query $0 == txn && unboxptr($1) == t && (len(q.index) == 0 ? $2 == 3 : (0 <= $2 && $2 < len(t.indexPositions) && t.indexPositions[$2] == q.index))
+//@   atcall list@1 requires @searches-for-the-query-key $0 == indexTxn && $1 == q.key
+//@   mustcall list@1 when @always true
+//@   ensureslocal @hands-on-the-watch-of-that-query watch == qWatch(indexTxn, 3, kid(q.key))
+//@ func (*genTable).AllWatch returns (seq, watch)
+//@   property C04 C11 C01
+//@   flag nosafety
+//@   maypanic
+//@   requires t != nil
+//@   atcall mustIndexReadTxn@1 requires @the-primary-index-of-the-snapshot $0 == txn && unboxptr($1) == t && $2 == 3
+//@   mustcall all@1 when @always true
+//@   ensureslocal @hands-on-the-watch-of-that-query watch == qWatch(indexTxn, 4, 0)
+//@ func (*genTable).GetWatch returns (obj, revision, watch, ok)
+//@   property C04 C11 C18 C01 C09
+//@   flag nosafety
+//@   maypanic
+//@   requires t != nil
+//@   atcall get@1 requires @asks-the-index-named-by-the-query-in-the-snapshot $1 == q.key && (exists p int :: (len(q.index) == 0 ? p == 3 : (0 <= p && p < len(t.indexPositions) && t.indexPositions[p] == q.index)) && $0 == wroot(txn)[t.pos].indexes[p])
+//@   mustcall get@1 when @always true
+//@   ensureslocal @found-iff-in-the-index ok <==> GH_dom[index][kid(q.key)]
+//@   ensureslocal @hands-on-the-watch-of-that-query watch == qWatch(index, 0, kid(q.key))
+//@   ensureslocal @revision-of-the-stored-object ok ==> revision == GH_map[index][kid(q.key)].revision
+// The plain forms delegate with the same transaction and query.
+//@ func (*genTable).Get
+//@   property C04 C11 C18 C01 C09
+//@   flag nosafety
+//@   maypanic
+//@   requires t != nil
+//@   atcall (*genTable).GetWatch@1 requires @same-query $0 == t && $1 == txn && $2.key == q.key && $2.index == q.index
+//@   mustcall (*genTable).GetWatch@1 when @always true
+//@ func (*genTable).LowerBound
+//@   property C04 C11 C18 C01
+//@   flag nosafety
+//@   maypanic
+//@   requires t != nil
+//@   atcall (*genTable).LowerBoundWatch@1 requires @same-query $0 == t && $1 == txn && $2.key == q.key && $2.index == q.index
+//@   mustcall (*genTable).LowerBoundWatch@1 when @always true
+//@ func (*genTable).Prefix
+//@   property C04 C11 C18 C01
+//@   flag nosafety
+//@   maypanic
+//@   requires t != nil
+//@   atcall (*genTable).PrefixWatch@1 requires @same-query $0 == t && $1 == txn && $2.key == q.key && $2.index == q.index
+//@   mustcall (*genTable).PrefixWatch@1 when @always true
+//@ func (*genTable).List
+//@   property C04 C11 C18 C01
+//@   flag nosafety
+//@   maypanic
+//@   requires t != nil
+//@   atcall (*genTable).ListWatch@1 requires @same-query $0 == t && $1 == txn && $2.key == q.key && $2.index == q.index
+//@   mustcall (*genTable).ListWatch@1 when @always true
+//@ func (*genTable).All
+//@   property C04 C11 C01
+//@   flag nosafety
+//@   maypanic
+//@   requires t != nil
+//@   atcall (*genTable).AllWatch@1 requires @same-transaction $0 == t && $1 == txn
+//@   mustcall (*genTable).AllWatch@1 when @always true
+// The typed sequences hand each object on with ITS revision.
+//@ func objSeq$1$1
+//@   property C04 C09 C11
+//@   flag nosafety
+//@   maypanic
+//@   atcall yield@1 requires @object-with-its-own-revision $1 == iobj.revision
+//@   mustcall yield@1 when @always true
+//@ func (*genTable).AllWatch$1$1
+//@   property C04 C09 C11
+//@   flag nosafety
+//@   maypanic
+//@   atcall yield@1 requires @object-with-its-own-revision $1 == obj.revision
+//@   mustcall yield@1 when @always true
+
+// ---------------------------------------------------------------------------
+// part-backed index, thin layer (C04, C11, C18, C01): each method of the committed index and
+// of the index transaction goes to its own tree / transaction with its own uniqueness flag and
+// the caller's key and object.
+//@ func (*partIndex).get
+//@   property C04 C11 C18 C01
+//@   flag nosafety
+//@   requires r != nil
+//@   atcall partGet@1 requires @own-tree-own-flag-callers-key $0 == r.unique && unboxptr($1) == addr(r.tree) && $2 == ikey
+//@   mustcall partGet@1 when @always true
+//@ func (*partIndex).list
+//@   property C04 C11 C18 C01
+//@   flag nosafety
+//@   requires r != nil
+//@   atcall partList@1 requires @own-tree-own-flag-callers-key $0 == r.unique && unboxptr($1) == addr(r.tree) && $2 == key
+//@   mustcall partList@1 when @always true
+//@ func (*partIndex).prefix
+//@   property C04 C11 C18 C01
+//@   flag nosafety
+//@   requires r != nil
+//@   atcall partPrefix@1 requires @own-tree-own-flag-callers-key $0 == r.unique && unboxptr($1) == addr(r.tree) && $2 == ikey
+//@   mustcall partPrefix@1 when @always true
+//@ func (*partIndex).lowerBound
+//@   property C04 C11 C18 C01
+//@   flag nosafety
+//@   requires r != nil
+//@   atcall partLowerBound@1 requires @own-tree-own-flag-callers-key $0 == r.unique && unboxptr($1) == addr(r.tree) && $2 == ikey
+//@   mustcall partLowerBound@1 when @always true
+//@ func (*partIndexTxn).get
+//@   property C04 C11 C18 C03
+//@   flag nosafety
+//@   requires r != nil
+//@   atcall partGet@1 requires @own-txn-own-flag-callers-key $0 == r.unique && unboxptr($1) == r.tx && $2 == key
+//@   mustcall partGet@1 when @always true
+//@ func (*partIndexTxn).delete
+//@   property C04 C11 C03 C08
+//@   flag nosafety
+//@   requires r != nil
+//@   atcall (*Txn).Delete@1 requires @own-txn-callers-key $0 == r.tx && $1 == key
+//@   mustcall (*Txn).Delete@1 when @always true
+//@ func (*partIndexTxn).insert
+//@   property C04 C11 C03 C09
+//@   flag nosafety
+//@   requires r != nil
+//@   atcall (*Txn).InsertWatch@1 requires @own-txn-callers-key-and-object $0 == r.tx && $1 == key && $2.revision == obj.revision && $2.data == obj.data
+//@   mustcall (*Txn).InsertWatch@1 when @always true
+//@ func (*partIndexTxn).modify
+//@   property C04 C11 C03 C09
+//@   flag nosafety
+//@   requires r != nil
+//@   atcall (*Txn).ModifyWatch@1 requires @own-txn-callers-key-and-object $0 == r.tx && $1 == key && $2.revision == obj.revision && $2.data == obj.data
+//@   mustcall (*Txn).ModifyWatch@1 when @always true
+//@ func (*partIndexTxn).notify
+//@   property C06 C12 C02
+//@   flag nosafety
+//@   requires r != nil
+//@   flag assumepre=index-transactions-come-from-Tree.Txn
+//@   mustcall (*Txn).Notify@1 when @pending-transaction-notified r.tx != nil
+//@   ensures @transaction-dropped r.tx == nil
+//@ func (*partIndex).txn returns (itxn, created)
+//@   property C01 C02 C11
+//@   flag nosafety
+//@   requires r != nil
+//@   flag assumepre=index-trees-are-built-by-part.New
+//@   atcall (*Tree).Txn@1 requires @transaction-on-the-index-tree $0 == addr(r.tree)
+//@   mustcall (*Tree).Txn@1 when @always true
+//@   ensures @new-transaction-reported created && unboxptr(itxn) == addr(r.partIndexTxn)
+//@ func (*partIndex).commit returns (idx, ntf)
+//@   property C01 C02 C06
+//@   flag nosafety
+//@   ensures @committed-index-is-itself unboxptr(idx) == r
+//@ func (*partIndexTxn).txn returns (itxn, created)
+//@   property C01 C02 C11
+//@   flag nosafety
+//@   ensures @already-a-transaction !created && unboxptr(itxn) == r
+
+// partList: a unique index is asked for exactly the key; a non-unique one is prefix-searched
+// with the escaped key and filtered with that same key in exact-length mode.
+//@ func partList returns (it, watch)
+//@   property C04 C11 C18 C06
+//@   flag nosafety
+//@   aftercall encodeNonUniqueBytes@1 assume lbKeyId(3) == keyId(result)
+//@   atcall Ops.Prefix@1 requires @searched-with-the-escaped-key keyId($1) == lbKeyId(3)
+//@   atcall newNonUniquePartIterator@1 requires @filter-uses-the-searched-key-in-exact-mode !$1 && keyId($2) == lbKeyId(3)
+//@   atcall Ops.Get@1 requires @unique-asks-for-the-key unique && $1 == key
+//@   ensureslocal @unique-get-watch unique ==> watch == getWatchOf(tree, keyId(key))
+
+// Non-unique key parts and the iterator filters (C04, C18): List hands on only keys whose
+// secondary part has exactly the searched length, Prefix only those at least as long; the
+// lower-bound filter only keys whose secondary part is >= the search key.
+//@ func nonUniqueKey.encodedPrimary
+//@   property C04 C18
+//@   flag nosafety
+//@   maypanic
+//@   ensures @the-bytes-before-the-length-suffix len(k) > 3 ==> arr(result) == arr(k) && off(result) == off(k) + len(k) - 2 - (k[len(k)-2] * 256 + k[len(k)-1]) && len(result) == k[len(k)-2] * 256 + k[len(k)-1]
+//@ func nonUniqueKey.encodedSecondary
+//@   property C04 C18
+//@   flag nosafety
+//@   maypanic
+//@   ensures @the-bytes-before-the-separator len(k) > 3 ==> arr(result) == arr(k) && off(result) == off(k) && len(result) == len(k) - (k[len(k)-2] * 256 + k[len(k)-1]) - 3
+//@ func (*nonUniquePartIterator).All$1
+//@   property C04 C18
+//@   flag nosafety
+//@   maypanic
+//@   atcall yield@1 requires @only-keys-of-matching-secondary-length (!it.prefixSearch ==> secondaryLen == len(it.searchKey)) && (it.prefixSearch ==> secondaryLen >= len(it.searchKey))
+//@   mustcall yield@1 when @every-matching-key-not-seen-before-is-handed-on (it.prefixSearch ? secondaryLen >= len(it.searchKey) : secondaryLen == len(it.searchKey)) && !found
+//@   atcall yield@1 requires @hands-on-the-stored-key-and-object $0 == key && $1.revision == iobj.revision && $1.data == iobj.data
+//@ func (*nonUniqueLowerBoundPartIterator).All$1
+//@   property C04 C18
+//@   flag nosafety
+//@   maypanic
+//@   atcall yield@1 requires @only-keys-at-or-above-the-search-key !bytesLess(secondary, it.searchKey)
+//@   mustcall yield@1 when @every-key-at-or-above-not-seen-before-is-handed-on !bytesLess(secondary, it.searchKey) && !found
+//@   atcall yield@1 requires @hands-on-the-stored-key-and-object $0 == key && $1.revision == iobj.revision && $1.data == iobj.data
+//@ func (*nonUniqueLowerBoundPartIterator).Next returns (k, o, ok)
+//@   property C04 C18
+//@   flag nosafety
+//@   maypanic
+//@   requires it != nil
+//@   ensureslocal @only-keys-at-or-above-the-search-key ok ==> !bytesLess(secondary, it.searchKey) && k == key
+//@   loop 1 backedge @skips-only-keys-below-or-seen-before bytesLess(secondary, it.searchKey) || found
